@@ -7,6 +7,10 @@ from . import core
 sys.path.insert(0, os.path.join(core.VERIF, 'gen'))
 import enc_gen  # noqa: E402
 import dec_gen  # noqa: E402
+import obj_gen  # noqa: E402
+import tlcdump  # noqa: E402
+import hashlib  # noqa: E402
+import json  # noqa: E402
 
 COMMON_ASSUMPTIONS = [
     'TLC explores the stated bounded configurations exhaustively; beyond them cases are sampled (seeded).',
@@ -85,6 +89,47 @@ ENC_HIST = {'kind': 'mc', 'name': 'enchist', 'module': 'MC_Enc', 'comp': 'enc', 
 ENC_RANDOM = {'kind': 'gen', 'name': 'encrandom', 'gen': enc_random, 'comp': 'enc', 'trace': 'TraceEnc'}
 ENC_WRAP = {'kind': 'gen', 'name': 'encwrap', 'gen': enc_wrap, 'comp': 'enc', 'trace': 'TraceEnc'}
 ENC_HRANDOM = {'kind': 'gen', 'name': 'enchrandom', 'gen': enc_hist_random, 'comp': 'enc', 'trace': 'TraceEnc'}
+
+# ------------------------------------------------------------------ objects
+def layout_table():
+    """The field tables of spec/Layout.tla as JSON, printed by TLC (cached on the hash of the module)."""
+    h = hashlib.sha1(open(os.path.join(core.SPEC, 'Layout.tla'), 'rb').read() +
+                     open(os.path.join(core.SPEC, 'MC_Layout.tla'), 'rb').read()).hexdigest()[:12]
+    p = os.path.join(core.OUT, 'layout_table.%s.json' % h)
+    if not os.path.exists(p):
+        logp, _ = core.mc('MC_Layout', 'MC_LayoutTable.cfg', 'layouttable')
+        t = list(tlcdump.printed_json(logp, 'TABLE'))
+        if not t:
+            raise core.MachineryError('MC_Layout did not print the field tables')
+        json.dump(t[0], open(p, 'w'))
+    return json.load(open(p))
+
+
+def obj_sweeps(tier, seed, path):
+    t = layout_table()
+    return obj_gen.write(path, list(obj_gen.sweeps(t, seed, tier)) + list(obj_gen.chains(t, seed, tier)))
+
+
+def obj_builds(tier, seed, path):
+    return obj_gen.write(path, obj_gen.builds(layout_table(), seed, tier))
+
+
+def nt_obj_sets(c):
+    return sum(1 for op in c.get('ops', []) if op.get('op') == 'set') >= 2
+
+
+def nt_obj_build_used(c):
+    ops = c.get('ops', [])
+    return sum(1 for op in ops if op.get('op') == 'setData') >= 2 or (ops and ops[0].get('op') == 'load')
+
+
+OBJ_LAYOUT = {'kind': 'mc', 'name': 'layout', 'module': 'MC_Layout', 'comp': 'obj', 'trace': 'TraceObj',
+              'cfg': {'quick': 'MC_Layout.cfg', 'thorough': 'MC_Layout.cfg'}, 'invariants': ['InvPutGet', 'TableOK']}
+OBJ_SWEEPS = {'kind': 'gen', 'name': 'sweeps', 'gen': obj_sweeps, 'comp': 'obj', 'trace': 'TraceObj'}
+OBJ_BUILDERS = {'kind': 'mc', 'name': 'builders', 'module': 'MC_Builders', 'comp': 'obj', 'trace': 'TraceObj',
+                'cfg': {'quick': 'MC_Builders_quick.cfg', 'thorough': 'MC_Builders_thorough.cfg'}, 'invariants': ['InvC13']}
+OBJ_BUILDS = {'kind': 'gen', 'name': 'randombuilds', 'gen': obj_builds, 'comp': 'obj', 'trace': 'TraceObj'}
+
 
 # ------------------------------------------------------------------ decoder
 def _dec_ops(c):
@@ -197,5 +242,26 @@ PROPS = {
                     'deliberately inconsistent inner lengths, bus-error flags, truncated at any offset and zero padded, decoded by '
                     'a decoder with history; monitor DecodedMatchesWire: packets = messages found by the independent walker of '
                     'spec/Frames.tla, field by field from the layout offsets. Non-trivial = distinct episodes of at least two decode calls.',
+            'assumptions': COMMON_ASSUMPTIONS},
+    'C11': {'level': 'model_checking', 'stages': [OBJ_LAYOUT, OBJ_SWEEPS], 'nontrivial_case': nt_obj_sets,
+            'rule': 'MC_Layout: every class x settable field x value pattern (zeros, ones, walking 1, walking 0) x background '
+                    '(zeros, ones): Put/Get algebra of the field tables and each case replayed on the real object; plus sweeps on '
+                    'the real objects: all values of fields <= 8 bit (<= 16 bit in the thorough tier), boundary + walking + random '
+                    'values of wider fields, on zero / all-ones / random prior states, mixed 80-step setter chains and set/clear '
+                    'chains of flag pairs. Monitor C11 (getter of the written field returns the value, every non-overlapping '
+                    'getter, the data bytes and the size unchanged). Non-trivial = distinct episodes with at least two setter calls.',
+            'assumptions': COMMON_ASSUMPTIONS},
+    'C12': {'level': 'model_checking', 'stages': [OBJ_LAYOUT, OBJ_SWEEPS], 'nontrivial_case': nt_obj_sets,
+            'rule': 'as C11; monitor C12: the written value sits at the offset / width / bit position of spec/Layout.tla, reserved '
+                    'bits unchanged, every getter returns the bits the layout assigns to it (objects loaded from hand-laid-out '
+                    'bytes included), default-constructed objects equal Default(cls) with reserved bits zero; header sizes through '
+                    'the raw images. Non-trivial = distinct episodes with at least two setter calls.',
+            'assumptions': COMMON_ASSUMPTIONS + ['the layout table is my transcription of ASAM CMP 1.0 / TECMP (no documents offline)']},
+    'C13': {'level': 'model_checking', 'stages': [OBJ_BUILDERS, OBJ_BUILDS], 'nontrivial_case': nt_obj_build_used,
+            'rule': 'MC_Builders: every kind x pair of small arguments (first build, second build on the result): rendered bytes are '
+                    'valid, in bounds, give the arguments back, depend only on the last arguments; each case replayed on the real '
+                    'builders; plus seeded random builds on fresh objects and on objects holding other data and non-zero headers, '
+                    'interleaved with header setters. Monitor C13 (raw = Render(header before, args), views give the arguments '
+                    'back, own validity check and decoder accept). Non-trivial = distinct episodes that build on a used object.',
             'assumptions': COMMON_ASSUMPTIONS},
 }
